@@ -415,7 +415,9 @@ def selection_descs(rng, count, types=("d",), classes=("sym", "symsh", "herm", "
             else:
                 rule1 = rng.choice([r for r in HERM_SEL if r != rule])
             kw["args1"] = "%d:%d:%s:%d" % (rule1, 500, tol, rng.choice(GEN_RULES if gen else HERM_SORT))
-            kw["hist"] = rng.choice(["N,I,C0,C1", "N,I,C1,I,C0", "N,I,C0,C1,C0", "N,V1,C1,C0"])
+            # (a second compute() WITHOUT a new init() continues a factorization that has already converged for the other rule: outside C04's
+            # quantifier - "default start vector" - and sometimes wrong on the unchanged tree; those calls are made but not judged)
+            kw["hist"] = rng.choice(["N,I,C1,I,C0", "N,I,C1,I,C0", "N,I,C0,C1,I,C0", "N,I,C1,C0,I,C1"])
             kw["sv1"] = "rnd"
         out.append(desc(**kw))
     return out
@@ -519,9 +521,11 @@ def breakdown_descs(rng, count, types=("d",), gen=None, meas=2):
             # rank-1 general matrices and scaled (2^+-20) breakdown inputs violate C02/C07 on the unchanged tree: recorded findings on
             # fixed descriptors (check.py FIXED_BREAKDOWN), not part of the random profile
             f, sv = rng.choice([(dict(fam="lowrank", rank=rng.randint(2, 3)), "rnd"), (dict(fam="blockdiag", blk=rng.randint(2, 4)), "blk"),
-                                (dict(fam="tri"), "e1"), (dict(fam="fewdist", nd=rng.randint(2, 3)), "rnd"),
-                                # ones is an eigenvector to working accuracy, not exactly: tiny NONZERO residual of the step-1 factorization
-                                (dict(fam="rowsum", rs=rng.choice([10, 10, -12, 25])), "ones")])
+                                (dict(fam="tri"), "e1"), (dict(fam="fewdist", nd=rng.randint(2, 3)), "rnd")])
+            # (the constant-row-sum family with the ones start vector - an eigenvector to working accuracy, not exactly - is used for the
+            # symmetric classes only: for the general solver about 1 % of such inputs put the rounding-level residual of the step-1
+            # factorization just above Arnoldi::init's eps*|H00| test on the unchanged tree; two such inputs are recorded findings on fixed
+            # descriptors, check.py FIXED_BREAKDOWN)
             nev, ncv = rng.randint(1, 2), rng.randint(7, 9)
             a0 = "%d:%d:%s:%d" % (rng.choice([0, 1]), 20, tol, rng.choice(GEN_RULES))
             cls = "gen"
